@@ -155,6 +155,31 @@ def received_tokens(env, action):
     return out
 
 
+def tags_are_text(chk: Check):
+    """Filters compare texts (quoted strings of the query, compiled patterns): the value of a tag -- which may be a number or a boolean -- must be
+    turned into text, and a tag name may contain digits and underscores (tags default to parameter names)"""
+    from ..dataflow import path_traces
+
+    tree = chk.tree
+    f = tree.func("cli.filter", "VarExpr.get")
+    bad = []
+    for t_ in path_traces(f.node):
+        conds = dict(t_.conds)
+        special = any(("@state" in c or "@name" in c) and v is True for c, v in conds.items())
+        if special or not t_.end.startswith("return"):
+            continue
+        if t_.end in ("return None", "return"):
+            continue
+        if not t_.end.startswith("return str("):
+            bad.append(t_.end)
+    chk.require(not bad, "cli.filter:VarExpr.get:tag value as text", f"VarExpr.get returns the raw tag value ({bad[:2]}): a numeric tag never equals the quoted text of a filter, "
+                "membership is always false and a regular expression raises TypeError", chk.loc(f.module, f.node))
+    m = tree.mod("cli.filter")
+    words = [c for c in ast.walk(m.tree) if isinstance(c, ast.Call) and (dotted(c.func) or "").endswith("Word") and c.args and "alphas" in src(c.args[0])]
+    okw = bool(words) and all(("_" in src(c.args[0])) and (len(c.args) < 2 or ("alphanums" in src(c.args[1]) or "nums" in src(c.args[1]))) and (len(c.args) >= 2 or "nums" in src(c.args[0])) for c in words)
+    chk.require(okw, "cli.filter:var token:tag names", f"the variable token is {[src(c) for c in words][:1]}: tag names with digits or underscores (learning_rate, top1) cannot be written in a filter", chk.loc(m, words[0] if words else m.tree))
+
+
 def quoted_text_is_verbatim(chk: Check):
     """What is between the quotes is the pattern / the value: the quoted-string token must not rewrite it.  Frozen table of the keyword
     arguments of pp.QuotedString that leave the text alone; the others (escChar strips every backslash -- `\\.` and `\\d` of a regular
@@ -174,6 +199,7 @@ def quoted_text_is_verbatim(chk: Check):
 
 def r2_token_typing(chk: Check):
     quoted_text_is_verbatim(chk)
+    tags_are_text(chk)
     tree = chk.tree
     env, classes = grammar_env(tree)
     m = tree.mod("cli.filter")
@@ -304,11 +330,11 @@ def r2_token_typing(chk: Check):
 
     cases = [({"is_state": True, "is_name": False, "has_state": True}, {"info.state.name"}), ({"is_state": True, "is_name": False, "has_state": False}, {"None"}),
              ({"is_state": False, "is_name": True, "has_state": None}, {"str(info.path.parent.name)", "info.path.parent.name"}),
-             ({"is_state": False, "is_name": False, "has_state": None}, {"info.tags.get(self.varname, None)", "info.tags.get(self.varname)"})]
+             ({"is_state": False, "is_name": False, "has_state": None}, {"str(info.tags.get(self.varname, None))", "str(info.tags.get(self.varname))", "str(value)", "None"})]
     for sc, want in cases:
         outs = walk_table(g, g.entry, classify, dict(sc), lambda n: [], stop)
         ends = {o.end for o in outs}
-        unk = [u[0] for o in outs for u in o.unknown if u[2] is None]
+        unk = [u[0] for o in outs for u in o.unknown if u[2] is None and not u[0].endswith(" is None")]
         chk.require(ends <= want and ends and not unk, f"cli.filter:VarExpr.get:{sc}", f"VarExpr.get under {sc} returns {sorted(ends)}{' depending on ' + str(unk) if unk else ''}; expected {sorted(want)} "
                     "(@state: the state name, @name: the task name, anything else: the tag of that name)", chk.loc(vg.module, vg.node))
     cg = tree.func("cli.filter", "ConstantString.get")
@@ -594,6 +620,15 @@ def r4_jobs_clean(chk: Check):
     chk.count("local_reads", nread)
     # the experiment -> jobs map used for the restriction: built from every xp/*/jobs/*/*
     chk.require("for job in p.glob('jobs/*/*')" in src(f.node), chk.fkey(f, "experiment map"), "the experiment restriction must be built from every experiment index", loc)
+    # ... and keyed by the job (its folder), not by the task: `--experiment A` selects the jobs of A, not every job of the tasks A ran
+    sets = [c for c in fn_calls(f.node) if tail(c) == "setdefault" and src(c.func.value) == "job2xp" and c.args]
+    gets = [c for c in fn_calls(f.node) if tail(c) == "get" and src(c.func.value) == "job2xp" and c.args]
+    okk = bool(sets) and bool(gets)
+    for c in sets + gets:
+        for nd in g.nodes_of(c):
+            k = rd.canon(c.args[0], nd)
+            okk = okk and ("resolve()" in k or k.startswith("job")) and "rsplit" not in k and "scriptname" not in k
+    chk.require(okk, chk.fkey(f, "experiment map keyed by job"), "the map from jobs to experiments is keyed by the task name: `jobs clean --experiment A --perform` also removes the jobs other experiments ran with the same task", loc)
     # unfinished experiments prevent clean/kill without --perform
     # decision table from the "this experiment is unfinished" branch: without --perform a requested kill / clean is switched off, with --perform nothing is
     baks = [n for n in g.live if n.kind == "test" and rd.canon(n.ast, n) in ("(p / 'jobs.bak').is_dir()", "(p / 'jobs.bak').exists()")]
@@ -640,7 +675,7 @@ def r5_orphans(chk: Check):
             for c in fn_calls(f.node):
                 if tail(c) in ("rmtree", "unlink", "rmdir", "remove"):
                     sites.append(f.key)
-    chk.require(sorted(sites) == ["cli.jobs:process", "cli:orphans"], "cli:deletion sites", f"deletion sites of the command line are {sorted(sites)}; expected exactly jobs clean and orphans --clean", "")
+    chk.require(sorted(set(sites)) == ["cli.jobs:process", "cli:orphans"], "cli:deletion sites", f"deletion sites of the command line are {sorted(sites)}; expected exactly jobs clean and orphans --clean", "")
 
 
 def r6_job_state(chk: Check):
@@ -655,7 +690,9 @@ def r6_job_state(chk: Check):
     def probe(sfx):
         return (f"(self.path / f'{{self.scriptname}}.{sfx}').is_file()",)
 
-    want = [("done", "return JobState.DONE"), ("failed", "return JobState.ERROR"), ("pid", "return JobState.RUNNING")]
+    # order: a success marker wins; then the process file (a job that is launched again keeps the failure marker of its previous run until it
+    # has taken its locks: it must not look finished, or `jobs clean` removes a running job); then the failure marker
+    want = [("done", "return JobState.DONE"), ("pid", "return JobState.RUNNING"), ("failed", "return JobState.ERROR")]
     ok = len(ts) == 4
     seen = set()
     for t in ts:
@@ -670,7 +707,7 @@ def r6_job_state(chk: Check):
                 seen.add(sfx)
     ok = ok and seen == {"done", "failed", "pid", "none"}
     chk.require(ok, chk.fkey(f, "state from the job's own markers"),
-                f"JobInformation.state must be DONE / ERROR / RUNNING exactly when <script>.done / .failed / .pid is a file of the job folder (in that order), else None; found {[(t.conds, t.end) for t in ts][:4]}. "
+                f"JobInformation.state must be DONE / RUNNING / ERROR exactly when <script>.done / .pid / .failed is a file of the job folder (in that order: the process file before the failure marker), else None; found {[(t.conds, t.end) for t in ts][:4]}. "
                 "Any other file ending in .done / .failed (written by the task itself) must not make a running job look finished -- `jobs clean` would delete it", loc)
 
 
@@ -681,6 +718,6 @@ RULES = [
     ("R3", "connectives: `and` = conjunction of both sides, otherwise disjunction; operators chained left to right; whole query parsed", r3_connectives),
     ("R4", "jobs clean / kill decision table over 2880 scenarios (directory, experiment restriction, filter, state, kill, clean, perform, process): rmtree iff selected, finished, clean and perform; "
            "kill iff selected, running, kill, perform and a process; every local read is bound", r4_jobs_clean),
-    ("R6", "JobInformation.state decision table: DONE / ERROR / RUNNING exactly by <script>.done / .failed / .pid being files, in that order", r6_job_state),
+    ("R6", "JobInformation.state decision table: DONE / RUNNING / ERROR exactly by <script>.done / .pid / .failed being files, in that order (a relaunched job with a stale failure marker is running)", r6_job_state),
     ("R5", "orphans --clean: indexed jobs from every index and backup index with fresh iterators; delete iff clean and unreferenced (= C16.R5); the command line has exactly two deletion sites", r5_orphans),
 ]
